@@ -169,6 +169,12 @@ def apply_shadow(doc, op):
             ms = list(itertools.islice(find_matches(b.steps(op[1]), doc), op[2] + 1))
             if len(ms) > op[2]:
                 set_match(b.steps(op[3]), val(op[4]), ms[op[2]], cascade=op[5])
+        elif k == "mpop":
+            from treepath import find_matches
+            import itertools
+            ms = list(itertools.islice(find_matches(b.steps(op[1]), doc), op[2] + 1))
+            if len(ms) > op[2]:
+                pop(b.steps(op[3]), ms[op[2]], default=None)
         elif k == "pop":
             pop(b.steps(op[1]), doc, default=None)
         elif k == "pop_match":
@@ -231,9 +237,13 @@ def gen_mutate(rng, profile):
                 steps, _ = target_path(rng, shadow, fancy=0.0)
                 op = ["set", steps, gen_valspec(rng, shadow), True]
         elif profile == "pop":
-            if r < 0.55:
+            if r < 0.12:
+                ms = gen_mset(rng, shadow, cascade=False)
+                op = ["mpop", ms[1], ms[2], ms[3], rng.choice(["match", "value"]), rng.random() < 0.5]
+            elif r < 0.55:
                 steps, _ = target_path(rng, shadow)
-                d = ["none"] if rng.random() < 0.5 else ["val", gen_valspec(rng, shadow)]
+                rr = rng.random()
+                d = ["none"] if rr < 0.45 else ["fn"] if rr < 0.55 else ["val", gen_valspec(rng, shadow)]
                 op = ["pop", steps, d]
             elif r < 0.75:
                 steps, _ = target_path(rng, shadow)
